@@ -120,10 +120,34 @@ def scen_lock_taken():
     return '; '.join(bad) if bad else None
 
 
+def scen_after_fork():
+    """the first malloc() in a child (the heap carries another pid): nothing inherited may be handed out -- the arenas
+    are shared with the parent, whose own heap object hands out the same free blocks"""
+    import os
+    h = H.Heap(4096)
+    blocks = [h.malloc(64) for _ in range(6)]
+    for b in blocks[::2]:
+        h.free(b)                       # free space inside the first arena
+    old_arenas = list(h._arenas)
+    old_free = {(id(a), s, e) for (a, s, e) in h._start_to_block.values()}
+    h._lastpid = os.getpid() + 1        # what a child sees after fork: the parent's pid
+    got = h.malloc(64)
+    if any(got[0] is a for a in old_arenas):
+        return ('first malloc() in a child handed out bytes %d..%d of an arena inherited from the parent (%s): parent and '
+                'child now both own that block' % (got[1], got[2], 'one of its free blocks'
+                                                   if any(id(got[0]) == i and s <= got[1] < e for (i, s, e) in old_free)
+                                                   else 'inherited arena'))
+    if h._lastpid != os.getpid():
+        return 'after malloc() in a child the heap still carries the parent pid'
+    if any(a in old_arenas for (a, s, e) in h._start_to_block.values()):
+        return 'after malloc() in a child the free-block index still lists blocks of inherited arenas'
+    return None
+
+
 def main():
     data = json.load(open(sys.argv[1]))
     print('replay of %s / %s' % (data['function'], data['obligation']))
-    r = scen_lock_taken()
+    r = scen_lock_taken() or scen_after_fork()
     if r:
         print('  violation on real code: ' + r)
         print('REPRODUCED on real code')
